@@ -17,8 +17,8 @@ class SpecError(Exception):
     pass
 
 
-LISTKEYS = {'uses', 'replace', 'flags', 'records', 'properties', 'enforce_extra', 'byref_types'}
-MAPKEYS = {'typemap', 'callmap', 'opmap', 'enums', 'membermap', 'subst'}
+LISTKEYS = {'uses', 'replace', 'flags', 'records', 'properties', 'enforce_extra', 'byref_types', 'identity_methods', 'token_types', 'zero_init_types', 'cellset_types', 'globals', 'enum_types', 'inline'}
+MAPKEYS = {'typemap', 'callmap', 'opmap', 'enums', 'membermap', 'subst', 'members'}
 
 
 def parse_spec(path):
@@ -52,7 +52,7 @@ def parse_spec(path):
             k, v = m.group(1), m.group(2).strip()
             if k in LISTKEYS:
                 cur.setdefault(k, [])
-                cur[k] += [x for x in re.split(r'[,\s]+', v) if x] if k != 'records' else [x.strip() for x in v.split(',') if x.strip()]
+                cur[k] += [x for x in re.split(r'[,\s]+', v) if x] if k not in ('records', 'enum_types') else [x.strip() for x in v.split(',') if x.strip()]
             elif k in MAPKEYS:
                 cur.setdefault(k, {})
                 for item in v.split(';'):
@@ -88,14 +88,18 @@ def load_all(specdir):
         if base is None:
             raise SpecError('unit %s is like unknown unit %s' % (u['name'], u['like']))
         resolve(base, stack + (u['name'],))
+        own_contract = 'contract' in u['sections']
         for k, v in base['sections'].items():
+            if own_contract and (k.startswith('loop ') or k.startswith('ghost ')):
+                continue     # a unit with its own contract brings its own loop contracts
             if k not in u['sections']:
                 for a, b in u.get('subst', {}).items():
                     v = v.replace(a, b)
                 v = v.replace(base['name'], u['name'])
                 u['sections'][k] = v
         for k in ('backend', 'flags', 'records', 'typemap', 'tu', 'filter', 'decl', 'records_tu', 'timeout', 'cost', 'self', 'callmap',
-                  'enums', 'membermap', 'opmap', 'replace', 'uses', 'mode', 'kind', 'class'):
+                  'enums', 'membermap', 'opmap', 'replace', 'uses', 'mode', 'kind', 'class', 'identity_methods', 'token_types',
+                  'zero_init_types', 'cellset_types', 'globals', 'enum_types', 'inline', 'byref_types', 'unwind', 'cap'):
             if k not in u and k in base:
                 u[k] = base[k]
         done.add(u['name'])
